@@ -211,3 +211,31 @@ PROPS["C19"] = {
         {"func": "verifH_C19_wrongtag", "pkg": "document", "params": {"ctor": [1, 7, 11, 12, 13, 15, 16, 20]}, "unwind": 64, "expect_reach": ["called"]},
     ],
 }
+
+_DD = "github.com/gmrtd/gmrtd/document."
+_C08_REDIR = {
+    "(*github.com/gmrtd/gmrtd/iso7816.NfcSession).ReadFile": "verifStubReadFile",
+    "(*github.com/gmrtd/gmrtd/iso7816.NfcSession).SelectMF": "verifStubSelectMF",
+    "(*github.com/gmrtd/gmrtd/iso7816.NfcSession).SelectAid": "verifStubSelectAid",
+    "(*github.com/gmrtd/gmrtd/pace.Pace).DoPACE": "verifStubDoPACE",
+    "(*github.com/gmrtd/gmrtd/bac.BAC).DoBAC": "verifStubDoBAC",
+    "(*github.com/gmrtd/gmrtd/activeauth.ActiveAuth).DoActiveAuth": "verifStubDoAA",
+    "(*github.com/gmrtd/gmrtd/chipauth.ChipAuth).DoChipAuth": "verifStubDoCA",
+    "github.com/gmrtd/gmrtd/passiveauth.PassiveAuth": "verifStubPA",
+    "(*github.com/gmrtd/gmrtd/document.Document).Verify": "verifStubVerify",
+    _DD + "NewSOD": "verifStubNewSOD", _DD + "NewCOM": "verifStubNewCOM", _DD + "NewEFDIR": "verifStubNewEFDIR", _DD + "NewCardAccess": "verifStubNewCardAccess",
+    _DD + "NewDG1": "verifStubDG1", _DD + "NewDG2": "verifStubDG2", _DD + "NewDG7": "verifStubDG7", _DD + "NewDG11": "verifStubDG11", _DD + "NewDG12": "verifStubDG12",
+    _DD + "NewDG13": "verifStubDG13", _DD + "NewDG14": "verifStubDG14", _DD + "NewDG15": "verifStubDG15", _DD + "NewDG16": "verifStubDG16",
+}
+PROPS["C08"] = {
+    "patterns": ["./reader"],
+    "harness": {"reader": ["reader/c08.go"]},
+    "level_text": "Claimed in part: the orchestration. The real SSA of Reader.ReadDocument, runSteps and the step functions (recordAtrAts, selectMF, readEfCardAccess, performPace, selectMrtdApplication, performBac, readEfDir, readEfSod, readEfCom, readLDS1dgs, performChipAuthentication, verifyDocument, performPassiveAuthentication) and Document.NewDG is executed with the protocol objects (DoPACE, DoBAC, DoActiveAuth, DoChipAuth, PassiveAuth), the file constructors and NfcSession.ReadFile replaced by recording stubs whose outcomes are symbolic: PACE success / installs secure messaging or not / PACE-CAM result, AA present/successful, CA result, PA result, skipPace, skipImages, an SOD hash list of 0..2 entries over {1,2,7,14,15,3}, one file read failing or none, a step panicking or not. z3 shows: BAC is attempted exactly when no secure messaging exists after the PACE step; exactly the supported data groups listed in the security object are read (image groups unless skipped), each with its own file id and constructor, and the constructor receives the bytes ReadFile returned for that id; chip authentication is attempted exactly when neither AA nor PACE-CAM completed; every Session field is the value its step returned; protocol failures are recorded and not fatal; a failed file read or a panic inside a step ends the read with an error; passive authentication runs last over the document that is returned.",
+    "level_note": "Not applicable to this technique: the end-to-end quantification over generated chip personalisations (a whole read runs through ASN.1 decoding and every protocol). File exactness is C13, wire formats C10/C17, protocol success C04-C07, verdict gating C02. The harness cannot be replayed natively (stubs are injected by the engine).",
+    "bounds": "all combinations of the listed step outcomes; SOD list of up to 2 entries",
+    "outside": "real protocol runs and real file parsing; SOD lists longer than 2 entries",
+    "assumptions": [],
+    "jobs": [
+        {"func": "verifH_C08_orchestration", "pkg": "reader", "params": {"panic": [0, 1, 2], "errs": [0, 1], "files": [1]}, "params_thorough": {"files": [0, 1]}, "unwind": 64, "no_replay": True, "redirect": _C08_REDIR, "expect_reach": ["ran", "complete", "read-error"]},
+    ],
+}
